@@ -855,10 +855,24 @@ def topics_family(run, rng):
             s, d = gen_name(rng), gen_name(rng)
             if rng.random() < 0.4:
                 d = s
+            r0 = rng.random()
+            if r0 < 0.15:
+                d = 'main'
+            elif r0 < 0.3:
+                s = 'main'
             if s in srcs or d in dsts:
                 continue
             srcs.add(s); dsts.add(d); ms.append((s, d))
-        text = addr + ''.join(ws(rng) + ';' + ws(rng) + (s if s == d and rng.random() < 0.8 else s + ws(rng) + '>' + ws(rng) + d) for s, d in ms)
+        def spell(s, d):
+            # the documented short spellings: 'a' = a>a, 'a>' = a>main, '>b' = main>b, '' / '>' = main>main
+            if s == d and rng.random() < 0.8:
+                return s
+            if d == 'main' and rng.random() < 0.6:
+                return s + ws(rng) + '>'
+            if s == 'main' and rng.random() < 0.6:
+                return '>' + ws(rng) + d
+            return s + ws(rng) + '>' + ws(rng) + d
+        text = addr + ''.join(ws(rng) + ';' + ws(rng) + spell(s, d) for s, d in ms)
         st, r = call(Filter.parse_topics, text)
         want = (addr, [tuple(m) for m in ms] if ms else None)
         run.seen(('rt-topics', text), nontrivial=bool(ms))
